@@ -71,6 +71,14 @@ def process (s : State) (i : Nat) : State × Bool :=
     | none => s
   if s1.requested then ({ s1 with requested := false }, true) else (s1, false)
 
+/-- what `(*cb)()` — the call through the registered pointer at poll `i` — does to the flag `q`; this is the
+    interpretation given to the abstract parameter `invoke` of the regenerated `Interrupt::process`
+    (Generated/Interrupt.lean, bridge in Props/C14Gen.lean).  A null pointer is never called. -/
+def invokeCb (i : Nat) (c : Option Cb) (q : Bool) : Bool :=
+  match c with
+  | some cb => (applyAct (cb i) ⟨q, c⟩).requested
+  | none => q
+
 /-- an operation as seen from the protocol: `polls` checkpoints in an uninterrupted run, result `result` -/
 structure Op (ρ : Type) where
   polls : Nat
